@@ -422,6 +422,9 @@ def run_rules_dataflow(ctx):
         elif not any(x[2] for x in ga) and not gs:
             r3.fail("%s|array-test-admits-str" % f.qual, site(f, n.ast),
                     "the array test `%s` also holds for strings (a str is a Sequence): `/a/0` on {\"a\": \"xyz\"} would return \"x\"" % norm(ga[0][0].ast))
+            if not gc:
+                r3.fail("%s|non-canonical-index" % f.qual, site(f, n.ast),
+                        "int(token) is applied to tokens that were not checked to be canonical array indices: '-1', '01', '+1', ' 1', '1_0' resolve through int()")
         elif not gc:
             r3.fail("%s|non-canonical-index" % f.qual, site(f, n.ast),
                     "int(token) is applied to tokens that were not checked to be canonical array indices: '-1', '01', '+1', ' 1', '1_0' resolve through int()")
